@@ -83,12 +83,12 @@ def do_import(agent_dir, pid, suffix=""):
         json.dump(meta, open(os.path.join(dst, "meta.json"), "w"), indent=1)
 
 
-def do_run(ids, in_repo=False):
+def do_run(ids, in_repo=False, seeds=("",)):
     """Default: each change is applied in its own scratch worktree of /repo's HEAD and the checks are pointed at it with
     VERIF_REPO (so that /repo stays usable meanwhile).  With --in-repo the patch is applied to /repo itself
     (git -C /repo apply), the checks run, and it is undone straight afterwards (git -C /repo reset --hard)."""
     os.makedirs(SEEDED, exist_ok=True)
-    rpath = os.path.join(SEEDED, "RESULTS.json")
+    rpath = os.path.join(SEEDED, "RESULTS.json" if len(seeds) == 1 else "RESULTS_multiseed.json")
     results = json.load(open(rpath)) if os.path.exists(rpath) else {}
     if in_repo:
         rc, out = sh("git -C /repo status --porcelain")
@@ -115,15 +115,20 @@ def do_run(ids, in_repo=False):
             try:
                 outcome = {}
                 for p in [pid] + list(meta.get("also_run", [])):
-                    env = "VERIF_REPO=%s VERIF_REPLAYS=/tmp/seeded-replays VERIF_EVIDENCE=/tmp/seeded-evidence " % tree
-                    rc, out = sh(env + "python3 tools/check.py %s --tier quick" % p, cwd=VERIF, timeout=3600)
-                    vio = re.findall(r"^VIOLATION .*", out, re.M)
-                    outcome[p] = dict(exit=rc, violations=len(vio), first=(vio[0] if vio else ""),
-                                      tail=out[-300:] if rc not in (0, 1) else "")
+                    for sd in seeds:
+                        env = "VERIF_REPO=%s VERIF_REPLAYS=/tmp/seeded-replays VERIF_EVIDENCE=/tmp/seeded-evidence " % tree
+                        if sd != "":
+                            # several generator seeds: the small-format models (code-independent) are skipped
+                            env += "VERIF_SEED=%s VERIF_SKIP_MODELS=1 " % sd
+                        rc, out = sh(env + "python3 tools/check.py %s --tier quick" % p, cwd=VERIF, timeout=3600)
+                        vio = re.findall(r"^VIOLATION .*", out, re.M)
+                        outcome[p + ("" if sd == "" else "@seed" + sd)] = dict(
+                            exit=rc, violations=len(vio), first=(vio[0] if vio else ""),
+                            tail=out[-300:] if rc not in (0, 1) else "")
             finally:
                 if in_repo:
                     sh("git -C /repo reset -q --hard HEAD")
-            detected = any(o["exit"] == 1 for o in outcome.values())
+            detected = all(o["exit"] == 1 for o in outcome.values()) if len(seeds) > 1 else any(o["exit"] == 1 for o in outcome.values())
             results[sid] = dict(property=pid, detected=detected, checks=outcome, wall_s=round(time.time() - t0),
                                 applied_to=tree)
             print(sid, "DETECTED" if detected else "MISSED", json.dumps(outcome)[:300], flush=True)
@@ -141,4 +146,8 @@ if __name__ == "__main__":
     elif sys.argv[1] == "run":
         args = sys.argv[2:]
         inrepo = "--in-repo" in args
-        sys.exit(do_run([a for a in args if a != "--in-repo"], inrepo))
+        seeds = ("",)
+        for a in args:
+            if a.startswith("--seeds="):
+                seeds = tuple(a.split("=", 1)[1].split(","))
+        sys.exit(do_run([a for a in args if not a.startswith("--")], inrepo, seeds))
